@@ -85,6 +85,9 @@ impl TcpConnector for TcpForwarder {
                 let resolved = tokio::net::lookup_host(format!("{}:{}", peer.0, peer.1))
                     .await
                     .map_err(io_to_connection_error)?;
+                #[cfg(feature = "verif")]
+                let resolved =
+                    crate::verif::net::override_resolved(&self.context, &peer.0, peer.1, resolved);
 
                 enum SelectionStatus {
                     Loopback,
@@ -136,6 +139,10 @@ impl TcpConnector for TcpForwarder {
         };
 
         log_id!(trace, id, "Connecting to peer: {}", peer);
+        #[cfg(feature = "verif")]
+        if let Some(r) = crate::verif::net::intercept_connect(&self.context, peer) {
+            return r;
+        }
         let metrics_guard = self.context.metrics.clone().outbound_tcp_socket_counter();
         TcpStream::connect(peer)
             .await
